@@ -649,6 +649,15 @@ dgsisx(superlu_options_t *options, SuperMatrix *A, int *perm_c, int *perm_r,
 	    SUPERLU_FREE(perm); /* MC64 permutation */
 	    SUPERLU_FREE(perm_tmp);
 	}
+
+	if ( *info > n ) { /* Out of memory: the factors L and U do not exist. */
+	    Destroy_CompCol_Permuted(&AC);
+	    if ( A->Stype == SLU_NR ) {
+		Destroy_SuperMatrix_Store(AA);
+		SUPERLU_FREE(AA);
+	    }
+	    return;
+	}
     }
 
     if ( options->PivotGrowth ) {
